@@ -2,7 +2,8 @@
 From Model Require Import Engine.
 From Spec Require Import Sem FindSpec.
 From Proofs Require Import RefineBase RefineExec Refine Attempt FindCorrect Transparent SemSound.
-From Proofs Require StackDiscipline.
+From Proofs Require StackDiscipline VarsShape.
+From Model Require Scan.
 
 (* The variables reported with each match are the bindings of the specification's first outcome at
    that offset (sp_env), i.e. those built along the successful derivation only. *)
@@ -56,6 +57,28 @@ Theorem C02_capture_writes_running_core_only :
   match step prog text c B with Running _ B' => B' = B | _ => True end.
 Proof. exact StackDiscipline.endvar_touches_running_core_only. Qed.
 Print Assumptions C02_capture_writes_running_core_only.
+
+(* What a variable IS, for ARBITRARY bytecode: in every match of every command, on every text and window, every
+   variable is a string or - for a named loop - an iteration table: a map whose keys are exactly the decimal
+   numbers 0 .. k, each once, and whose entries are variable maps (no name twice) of the same shape, to any depth.  The engine never binds a
+   string where a table entry belongs, never leaves a gap in the numbering, never uses a key that is not an
+   iteration number ([VarsShape.wsv]; C17 renders exactly this nest as JSON objects). *)
+Theorem C02_variables_have_the_named_loop_shape :
+  forall vmfuel prog text all skip take last R,
+  Scan.find_matches vmfuel prog text all skip take last = Scan.SOk R ->
+  Forall (fun m => NoDup (map fst (Scan.mvars m)) /\ Forall (fun kv => VarsShape.wsv (snd kv)) (Scan.mvars m)) R.
+Proof. exact VarsShape.find_matches_vars_shape. Qed.
+Print Assumptions C02_variables_have_the_named_loop_shape.
+
+Theorem C02_shape_meaning : forall v, VarsShape.wsv v <->
+  match v with
+  | VStr _ => True
+  | VMap t => exists k, (forall i, (i <= k)%nat -> exists e, alookup t (itoa_nat i) = Some (VMap e) /\ VarsShape.wse e) /\
+                        NoDup (map fst t) /\
+                        (forall key x, In (key, x) t -> exists i e, (i <= k)%nat /\ key = itoa_nat i /\ x = VMap e /\ VarsShape.wse e)
+  end.
+Proof. exact VarsShape.wsv_meaning. Qed.
+Print Assumptions C02_shape_meaning.
 
 (* non-vacuity: ('a' = x 'b') or ('a' 'c') on "ac": the only outcome has no binding for x *)
 Definition ex2 : rx :=
